@@ -60,6 +60,30 @@ def variant_method_tables(F):
                 r.violate("%s | %s::%s unhandled" % (fn["path"], adt.split("::")[-1], v), F.loc(fn), "%s variant %s has no explicit arm" % (adt.split("::")[-1], v))
             per_site[(adt, fname)] = covered
             r.count("%s@%s" % (adt.split("::")[-1], fname), len(covered))
+    # declaration enums (component / instance / module type declarations): an `Import` arm does not emit through the builder's
+    # `export` method, nor an `Export` arm through `import` (the crossed pair only; the other arms delegate to converters)
+    n_decl = 0
+    for fn in F.fns:
+        if fn.get("body") is None:
+            continue
+        for m in walk(fn["body"]):
+            if m.get("k") != "Match" or not (m.get("scrut_ty") or "").replace("&", "").startswith("wasmparser::") or "TypeDeclaration" not in (m.get("scrut_ty") or ""):
+                continue
+            for arm in m["arms"]:
+                for leaf in pat_alternatives(arm["pat"]):
+                    v = leaf.get("variant")
+                    if v not in ("Import", "Export"):
+                        continue
+                    methods = {c["method"] for c in walk(arm["body"]) if c.get("k") == "MethodCall" and "wasm_encoder::" in (c.get("recv_ty") or "")}
+                    other = "export" if v == "Import" else "import"
+                    own = v.lower()
+                    n_decl += 1
+                    crossed = other in methods and own not in methods
+                    r.ob(not crossed, {"fn": fn["name"], "declaration": v, "builder methods": sorted(methods)})
+                    if crossed:
+                        r.violate("%s | %s declaration → %s" % (fn["path"], v, other), F.loc(fn, arm),
+                                  "the %s arm of the type-declaration match emits through the builder's `%s` method: every %s of the nested type comes back as an %s" % (v, other, own, other))
+    r.count("import_export_declaration_arms", n_decl)
     return r
 
 
@@ -428,6 +452,30 @@ def nest_track(F):
     if not ok:
         r.violate("%s | End pop" % fn["path"], F.loc(fn), "a Payload::End does not close exactly one nesting level (pops=%d)" % len(pops))
     r.count("stack_pushes", len(pushes))
+    # configuration is inherited: a bool parameter of parse_comp (`enable_multi_memory`) is handed on unchanged to the
+    # recursive parse of a nested component and to the parse of a nested core module — a literal there makes the meaning of the
+    # caller's flag depend on the nesting depth
+    flags = [(i, pm["pat"]["hid"], pm["pat"].get("name")) for i, pm in enumerate(fn.get("params") or []) if pm.get("ty") == "bool" and pm["pat"].get("k") == "Binding"]
+    for c in walk(fn["body"]):
+        if c.get("k") != "Call":
+            continue
+        tgt_ = F.by_path.get(c.get("inst") or c.get("callee") or "")
+        if not tgt_ or len(tgt_) != 1 or tgt_[0]["name"] not in ("parse_comp", "parse_internal"):
+            continue
+        for _i, hid_, nm_ in flags:
+            j = next((k_ for k_, pm in enumerate(tgt_[0].get("params") or []) if pm.get("ty") == "bool" and pm["pat"].get("name") == nm_), None)
+            if j is None or j >= len(c["args"]):
+                continue
+            a_ = peel(c["args"][j])
+            okf = a_.get("k") == "Path" and a_.get("res", {}).get("hid") == hid_
+            if a_.get("k") == "Lit":
+                r.ob(False, {"nested parse": tgt_[0]["name"], "flag": nm_, "passed": "a literal"})
+                r.violate("%s | %s not forwarded to %s" % (fn["path"], nm_, tgt_[0]["name"]), F.loc(fn, c),
+                          "the nested call of %s is given a literal for `%s` instead of the caller's value: what a module may contain depends on how deeply it is nested" % (tgt_[0]["name"], nm_))
+            elif okf:
+                r.ob(True, {"nested parse": tgt_[0]["name"], "flag": nm_, "passed": "forwarded"})
+            else:
+                r.undecided("%s: `%s` reaches %s through an expression that is not followed" % (fn["path"], nm_, tgt_[0]["name"]))
     # the recursive parse is handed the bytes of the nested component together with the absolute offset those bytes start
     # at: nested_bytes(wasm, &R, start) cuts R out of the current slice, so the callee's `start` is exactly R.start
     # (parser ranges are absolute); anything else makes every range of a deeper item relative to the wrong origin
